@@ -67,24 +67,42 @@ class Hang(Exception):
     pass
 
 
+class _Guard:
+    armed = False
+    fired = False
+
+
 def _alarm(signum, frame):
-    raise Hang()
+    if _Guard.armed:
+        _Guard.fired = True
+        raise Hang()
 
 
-def impl_read(path, nv, check, limit=20):
-    """t2incon(filename, ...) -> ('OK', tokens) | ('RAISE', class) | ('HANG',)"""
+def impl_read(path, nv, check, limit=2):
+    """t2incon(filename, ...) -> ('OK', tokens, object) | ('RAISE', class) | ('HANG',).
+    The guard is a repeating CPU-time timer (the machine may be loaded; PyTOUGH's bare `except:` clauses can swallow
+    one interruption -- and then return garbage): once it has fired the outcome is HANG whatever came back."""
     from t2incons import t2incon
-    old = signal.signal(signal.SIGALRM, _alarm)
-    signal.alarm(limit)
+    old = signal.signal(signal.SIGVTALRM, _alarm)
+    _Guard.fired = False; _Guard.armed = True
+    res = None
     try:
-        inc = t2incon(path, num_variables=nv, check_blocknames=check)
-        return ('OK', enc_snapshot(orc.snapshot(inc)), inc)
+        try:
+            signal.setitimer(signal.ITIMER_VIRTUAL, limit, 0.05)
+            try:
+                inc = t2incon(path, num_variables=nv, check_blocknames=check)
+                res = ('OK', enc_snapshot(orc.snapshot(inc)), inc)
+            except Hang:
+                res = ('HANG',)
+            except Exception as e:
+                res = ('RAISE', type(e).__name__)
+        finally:
+            _Guard.armed = False
+            signal.setitimer(signal.ITIMER_VIRTUAL, 0)
+            signal.signal(signal.SIGVTALRM, old)
     except Hang:
-        return ('HANG',)
-    except Exception as e:
-        return ('RAISE', type(e).__name__)
-    finally:
-        signal.alarm(0); signal.signal(signal.SIGALRM, old)
+        res = ('HANG',)
+    return ('HANG',) if _Guard.fired or res is None else res
 
 
 EXN = {'Exception': 'Exception'}
@@ -119,6 +137,12 @@ def run_model(exe, lines, shards=None, timeout=1500):
     res = [None] * len(lines)
     for k, o in enumerate(outs): res[k::shards] = o
     return res
+
+
+def lap(ctx, msg):
+    """progress line with the CPU time used so far (own + finished children): the machine may be shared"""
+    t = os.times()
+    ctx.log('%s  [cpu %.0fs]' % (msg, t.user + t.system + t.children_user + t.children_system))
 
 
 def esc(t): return t.replace('\t', '\x01').replace('\n', '\x02')
@@ -201,7 +225,7 @@ def gen_corr_desc(rng, thorough):
         if rng.random() < 0.3: d['timing']['sumtim'] = None
     elif r < 0.50 and d['blocks']:
         b = rng.choice(d['blocks']); b['vars'][rng.randrange(len(b['vars']))] = rng.choice([-1.5e-310, 4.9e-324, 1.7976931348623157e308, -2.2250738585072014e-308])
-    if rng.random() < 0.15: d['nv'] = rng.choice([None, 0, 1, 3, 4, 5, 13])
+    if rng.random() < 0.08: d['nv'] = rng.choice([None, 0, 1, 3, 4, 5, 13])   # too large a number: the reader never returns (a few cases only)
     return d
 
 
@@ -268,7 +292,7 @@ def correspond(ctx, exe, n_objects, n_oracle, n_inst):
             except Exception as e:
                 impl_w.append(('RAISE', type(e).__name__)); impl_r.append(None); impl_w2.append(None); ptexts.append(None)
                 continue
-            r = impl_read(f1, d['nv'], d['check'])
+            r = impl_read(f1, d['nv'], d['check'], limit=2)
             impl_r.append(r)
             rl.append((len(impl_r) - 1, read_case(d['nv'], d['check'], read_text(f1))))
             if r[0] == 'OK':
@@ -279,17 +303,17 @@ def correspond(ctx, exe, n_objects, n_oracle, n_inst):
                     impl_w2.append(('RAISE', type(e).__name__))
             else: impl_w2.append(None)
             ptexts.append(text)
-        ctx.log('implementation: %d objects written / read / rewritten' % len(descs))
+        lap(ctx, 'implementation: %d objects written / read / rewritten' % len(descs))
         # model writes
         for d, mo, im in zip(descs, run_model(exe, wl, shards), impl_w):
             m = written_text(model_result(mo))
             if (m[0] == 'OK') != (im[0] == 'OK') or (m[0] == 'OK' and m[1] != im[1]):
                 ctx.disagreement('model-write-vs-t2incon.write', orc.desc_to_json(d), repr(m)[:600], repr(im)[:600])
         ctx.corr_cases('model-write-vs-t2incon.write', len(descs), implementation_raised=sum(1 for x in impl_w if x[0] != 'OK'))
-        ctx.log('model writes done')
+        lap(ctx, 'model writes done')
         # model reads of the implementation's files
         mouts = run_model(exe, [l for _, l in rl], shards)
-        nread = 0
+        nread = nnan = 0
         for (idx, _), mo in zip(rl, mouts):
             d, im = descs[idx], impl_r[idx]
             m = model_result(mo)
@@ -301,14 +325,15 @@ def correspond(ctx, exe, n_objects, n_oracle, n_inst):
                 ctx.disagreement('model-read-vs-t2incon(filename)', orc.desc_to_json(d), repr(m)[:600], repr(im[:2])[:600])
             # second write: model write of what the model read vs implementation write of what it read
             if im[0] == 'OK' and m[0] == 'OK' and impl_w2[idx] is not None:
-                w2l.append((idx, write_case(d['reset'], m[1])))
+                if any('NAN' in t or 'INF' in t for t in m[1]): nnan += 1      # nan / inf are outside the model of %-formatting
+                else: w2l.append((idx, write_case(d['reset'], m[1])))
         ctx.corr_cases('model-read-vs-t2incon(filename)', nread)
         for (idx, _), mo in zip(w2l, run_model(exe, [l for _, l in w2l], shards)):
             m = written_text(model_result(mo)); im = impl_w2[idx]
             if (m[0] == 'OK') != (im[0] == 'OK') or (m[0] == 'OK' and m[1] != im[1]):
                 ctx.disagreement('model-rewrite-vs-implementation-rewrite', orc.desc_to_json(descs[idx]), repr(m)[:600], repr(im)[:600])
-        ctx.corr_cases('model-rewrite-vs-implementation-rewrite', len(w2l))
-        ctx.log('model reads and rewrites done')
+        ctx.corr_cases('model-rewrite-vs-implementation-rewrite', len(w2l), skipped_object_holds_nan_or_inf=nnan)
+        lap(ctx, 'model reads and rewrites done')
         # hypotheses and theorem instances, evaluated by the extracted model
         nwf = nidh = nq = nqwf = 0
         for (k, _), mo in zip(cl, run_model(exe, [l for _, l in cl], shards)):
@@ -331,7 +356,7 @@ def correspond(ctx, exe, n_objects, n_oracle, n_inst):
         if nqwf * 4 < nq:
             ctx.proof_failures.append({'kind': 'finite', 'name': 'incon_read_write (hypothesis wf is met by %d of %d generated objects)' % (nqwf, nq),
                                        'detail': 'the theorem has become (nearly) vacuous on the objects of the property quantifier'})
-        ctx.log('theorem instances done')
+        lap(ctx, 'theorem instances done')
         # perturbed files
         pl, pidx = [], []
         texts = [t for t in ptexts if t]
@@ -346,11 +371,11 @@ def correspond(ctx, exe, n_objects, n_oracle, n_inst):
             m = model_result(mo)
             if m[0] == 'RAISE' and m[1] == 'OutOfFuel': continue     # the code would not terminate: not run
             with open(f1, 'w', newline='') as f: f.write(t)
-            im = impl_read(f1, nv, ck, limit=10)
+            im = impl_read(f1, nv, ck, limit=3)
             if not same_read(im, m):
                 ctx.disagreement('model-read-vs-t2incon(perturbed file)', {'text': t, 'num_variables': nv, 'check_blocknames': ck}, repr(m)[:600], repr(im[:2])[:600])
         ctx.corr_cases('model-read-vs-t2incon(perturbed file)', len(pl))
-        ctx.log('perturbed files done')
+        lap(ctx, 'perturbed files done')
         # shipped files: implementation side, compared with the model results computed in the background
         nship = 0
         for rel, nv, p, resets, fut in ship:
@@ -367,7 +392,7 @@ def correspond(ctx, exe, n_objects, n_oracle, n_inst):
                     if ws.get(reset) != ('OK', open(f2, newline='').read()):
                         ctx.disagreement('shipped-files', {'file': rel, 'rewrite_reset': reset}, 'model write of the model-read object differs', 'implementation write')
         ctx.corr_cases('shipped-files', nship, files=len(ship))
-        ctx.log('shipped files done')
+        lap(ctx, 'shipped files done')
         return descs[:n_oracle]
     finally:
         pool.shutdown(wait=True)
@@ -442,18 +467,22 @@ def run(ctx):
                         'the value-level facts (the Fortran reader applied to the formatted field returns the double nearest the value rounded to the printed digits; formatting that double again gives the same text) '
                         'are decidable hypotheses of the theorems, evaluated on every generated object by the extracted model; they are the classical 15-significant-digit round trip of binary64, not proved here']
     ctx.stage()
+    lap(ctx, 'staged')
     ok = translate(ctx)
     exe = None
     if ok:
         ctx.coq_build()
+        lap(ctx, 'coq build done')
         exe = vf.build_driver(ctx)
     descs = None
     if exe:
         correspond_strtod(ctx, exe)
+        lap(ctx, 'strtod model done')
         descs = correspond(ctx, exe, n_oracle + n_extra, n_oracle, n_inst)
     if descs is None:
         descs = [orc.gen_desc(ctx.rng, ctx.thorough) for _ in range(n_oracle)]
     oracle(ctx, known_witnesses() + descs)
+    lap(ctx, 'oracle sweep done')
 
     def deep(broken):
         if not ctx.thorough:
